@@ -11,8 +11,8 @@ from harness.runner import run_property
 from harness.trace import Run, result_str
 
 PROP = "C06"
-THEOREMS = ["Lbfgsb.C06.restore_pairs", "Lbfgsb.C06.restore_keeps_most_recent", "Lbfgsb.C06.restore_roundtrip"]
-MODULES = ["LbfgsbVerif.Props.C06"]
+THEOREMS = ["Lbfgsb.C06.restore_pairs", "Lbfgsb.C06.restore_keeps_most_recent", "Lbfgsb.C06.restore_roundtrip", "Lbfgsb.C06.restart_noiter_same_pairs"]
+MODULES = ["LbfgsbVerif.Props.C06", "LbfgsbVerif.Props.C06Run"]
 
 
 def pairs(r):
